@@ -580,7 +580,16 @@ class Unit:
         a, b = s.find_item(kind, name)
         where = '%s:%d' % (file, s.line_of(a))
         text = self.apply_subs(self.apply_rules(s.text[a:b], where), self._simple_subs(block), where)
-        self.emit_repo(s, a, b, text=text)
+        # R-derive: a derive list the template did not adapt (it changed) and that names more than Clone/Copy is dropped:
+        # the derived impls (Debug, PartialEq, Node, ..) are outside the verified text anyway
+        def _drv(m):
+            names = [x.strip() for x in m.group(1).split(',') if x.strip()]
+            return m.group(0) if all(x in ('Clone', 'Copy') for x in names) else ''
+        wants_adaptation = any(pat.startswith('#\\[derive') for pat, _r, _c in self._simple_subs(block))
+        text2 = re.sub(r'[ \t]*#\[derive\(([^)]*)\)\]\n', _drv, text) if wants_adaptation else text
+        if text2 != text:
+            self.rewrites.append(('R-derive drop a derive list that is not only Clone/Copy', where, 1))
+        self.emit_repo(s, a, b, text=text2)
 
     def _d_sortedfacts(self, rest, block, base, tline):
         """`//@sortedfacts FILE | LEMMA | PRED` with lines `CONST => SPEC_EXPR`: a data fact computed on every run from the
